@@ -4,6 +4,8 @@ import Ivg.Lemmas.ZeroToOne
 import Ivg.Lemmas.Angle
 import Ivg.Gen.Tie.DrawOps
 import Ivg.Gen.Tie.Magic
+import Ivg.Gen.Tie.Code.EncNumbers
+import Ivg.Gen.Tie.Code.DecNumbers
 import Ivg.Obligations
 /-!
 # C08 — number encodings: lossless where possible, bounded error, minimal
@@ -488,4 +490,21 @@ end Ivg.Props.C08
   Ivg.Props.C08.quantize_nearest, Ivg.Props.C08.quantize_unchanged, Ivg.Props.C08.quantize_short,
   Ivg.Props.C08.quantize_idem, Ivg.Props.C08.z2o_bound, Ivg.Props.C08.angle_bound,
   Ivg.Props.C08.angle_mod1, Ivg.Props.C08.angle_range, Ivg.Props.C08.angle_id,
-  Ivg.Gen.Tie.drawOps_tie, Ivg.Gen.Tie.magic_tie]
+  Ivg.Gen.Tie.drawOps_tie, Ivg.Gen.Tie.magic_tie,
+  -- regenerated code (translator, Ivg/Gen/Code) = model, for all inputs: EncNumbers, DecNumbers
+  Ivg.Gen.Tie.encodeNatural_code_tie,
+  Ivg.Gen.Tie.encode4ByteReal_code_tie,
+  Ivg.Gen.Tie.encodeReal_code_tie,
+  Ivg.Gen.Tie.encodeCoordinate_code_tie,
+  Ivg.Gen.Tie.encodeZeroToOne_code_tie,
+  Ivg.Gen.Tie.encodeAngle_code_tie,
+  Ivg.Gen.Tie.quantize_code_tie,
+  Ivg.Gen.Tie.decodeNatural_code_tie,
+  Ivg.Gen.Tie.decodeNatural_model_eq,
+  Ivg.Gen.Tie.decodeReal_code_tie,
+  Ivg.Gen.Tie.decodeReal_model_eq,
+  Ivg.Gen.Tie.decodeCoordinate_code_tie,
+  Ivg.Gen.Tie.decodeCoordinate_model_eq,
+  Ivg.Gen.Tie.decodeZeroToOne_code_tie,
+  Ivg.Gen.Tie.decodeZeroToOne_model_eq,
+  Ivg.Gen.Tie.isNaNOrInfinity_code_tie]
